@@ -1,7 +1,7 @@
 (* C16 - text fields never overrun a buffer and round-trip their content.
    Only statements (fixed in Spec/TextSpec.v) and their closing lemma; nothing else lives here. *)
-From Coq Require Import ZArith List.
-From N2kV Require Import Base.Res Model.TextDefs Spec.TextSpec Proofs.TextProofsA Proofs.TextProofsB Proofs.TextProofsC.
+From Coq Require Import ZArith List Lia.
+From N2kV Require Import Base.Res Model.TextDefs Spec.TextSpec Proofs.TextProofsA Proofs.TextProofsB Proofs.TextProofsC Proofs.TextProofsD.
 Import ListNotations.
 Local Open Scope Z_scope.
 
@@ -32,3 +32,25 @@ Print Assumptions C16_roundtrip_var_ascii.
 Theorem C16_roundtrip_ais : roundtrip_ais_stmt.
 Proof. exact roundtrip_ais. Qed.
 Print Assumptions C16_roundtrip_ais.
+
+Theorem C16_roundtrip_bmp : roundtrip_bmp_stmt.
+Proof. exact roundtrip_bmp. Qed.
+Print Assumptions C16_roundtrip_bmp.
+
+(* non-vacuity: "M\u00e4kel\u00e4\u20ac" (well-formed, 1-, 2- and 3-byte sequences) at fill level 3 with a maximum of 6 characters cuts the
+   euro sign off; reading into 8 bytes then stops in front of the second a-umlaut, which no longer fits: "M\u00e4kel" comes back,
+   exactly what roundtrip_bmp_stmt predicts *)
+Example C16_nonvacuous :
+  let m := {| mdata := repeat 85 223; mlen := 3 |} in
+  payload m /\ Forall scalar nv_cps /\ ~ In 255 (map bmp_repl nv_cps) /\
+  exists m', add_var_str m (utf8 nv_cps) 6 true true = Ok m' /\ mlen m' = 17 /\
+             firstn 14 (skipn 3 (mdata m')) = [14; 0; 77; 0; 228; 0; 107; 0; 101; 0; 108; 0; 228; 0] /\
+             get_var_str m' 8 (repeat 165 8) 255 3 = Ok (true, 6, 17, [77; 195; 164; 107; 101; 108; 0; 165]) /\
+             utf8 (take_fit 7 (zfirstn (var_chars nv_cps 6 true 218) (map bmp_repl nv_cps))) = [77; 195; 164; 107; 101; 108].
+Proof.
+  cbv zeta. split; [split; [reflexivity|cbn [mlen]; lia]|].
+  split; [unfold nv_cps, scalar; repeat constructor; lia|].
+  split; [vm_compute; intros H; repeat (destruct H as [H|H]; [discriminate H|]); exact H|].
+  eexists. split; [vm_compute; reflexivity|]. vm_compute. repeat split; reflexivity.
+Qed.
+Print Assumptions C16_nonvacuous.
